@@ -20,7 +20,7 @@ from .. import isa
 from ..core import REPO, AnalysisError, Ctx
 from ..pyfacts import PyEval, PyProgram, attr_chain, unparse
 from ..rsfacts import RustProgram, expr_text, pat_text, walk
-from ..rules import key_of, py_defs, py_leaves
+from ..rules import key_of, py_defs, py_leaves, rs_defs, rs_leaves
 
 LEVEL = "other"
 EXPLANATION = (
@@ -95,7 +95,16 @@ def layout(ctx: Ctx, py: PyProgram, rs: RustProgram) -> None:
         f = rs.fn(SNAP_RS, fname)
         n += 1
         its = [expr_text(l["iter"]) for l in walk(f.body) if l.get("k") == "for"]
-        if not any("SNAPSHOT_REGISTER_LAYOUT" in t for t in its) or not any("idx*8" in expr_text(x).replace("(", "").replace(")", "") for x in walk(f.body) if x.get("k") == "binary" and x["op"] in ("<<", ">>")):
+        # little endian: the shift amount is <byte index> * 8, the byte index being the variable of an inner counting loop
+        loop_vars = set()
+        for l in walk(f.body):
+            if l.get("k") == "for":
+                loop_vars |= {p_["name"] for p_ in walk(l["pat"]) if p_.get("k") == "p_ident"}
+
+        def _idx_times_8(x: dict) -> bool:
+            t = expr_text(x).replace("(", "").replace(")", "").replace(" ", "")
+            return any(t in (f"{v}*8", f"8*{v}") for v in loop_vars)
+        if not any("SNAPSHOT_REGISTER_LAYOUT" in t for t in its) or not any(_idx_times_8(x["r"]) for x in walk(f.body) if x.get("k") == "binary" and x["op"] in ("<<", ">>")):
             ctx.violation("C16.2/register-layout", key_of(rs.file_for(SNAP_RS), fname, "layout-iteration"), f"{fname} does not iterate SNAPSHOT_REGISTER_LAYOUT little-endian", f.where)
     for fname in ("collect_registers", "apply_registers"):
         f = rs.fn(isa.LIB_RS, fname)
@@ -450,6 +459,7 @@ def field_cover_rust(ctx: Ctx, rs: RustProgram) -> None:
         saved, _ = _rs_self_fields(sv.body)
         # restored = assigned from the snapshot argument (rhs mentions a parameter of the loader), reset = assigned a constant
         params = [p for p in ld.params() if p != "self"]
+        ld_defs = rs_defs(ld.body)
         restored, reset = set(), set()
         for a in walk(ld.body):
             tgt = a.get("l") if a.get("k") == "assign" else None
@@ -457,9 +467,10 @@ def field_cover_rust(ctx: Ctx, rs: RustProgram) -> None:
                 tgt = tgt["e"]            # self.array[idx] = value
                 a = {"k": "assign", "l": tgt, "r": a["r"]}
             if a.get("k") == "assign" and a["l"].get("k") == "field" and expr_text(a["l"]["e"]) == "self":
-                rhs_names = {x["p"].split(".")[0] for x in walk(a["r"]) if x.get("k") == "path"} | {expr_text(x["e"]).split(".")[0] for x in walk(a["r"]) if x.get("k") == "field"}
-                # values bound from `if let Some(counts) = interrupts.irq_counts...` count as snapshot-derived
-                if rhs_names & (set(params) | {"counts", "last", "saved", "hist", "byte", "snapshot"}):
+                # snapshot-derived = some leaf of the value, through lets / if-lets / loop and closure bindings, is a parameter of the loader
+                lv_ = rs_leaves(a["r"], ld_defs)
+                roots_ = {re.split(r"[.\[(]", l_.lstrip("&*<"))[0].rstrip(">") for l_ in lv_}
+                if roots_ & set(params):
                     restored.add(a["l"]["name"])
                 else:
                     reset.add(a["l"]["name"])
@@ -485,7 +496,7 @@ def field_cover_rust(ctx: Ctx, rs: RustProgram) -> None:
     sv_src = " ".join(s.get("src", "") for s in sv.body["stmts"])
     for what, s_pat, l_pat in (("power_state", "self.state.power_state()", "set_power_state"), ("call_depth", "self.state.call_depth()", "call_depth_inc"),
                                ("call_sub_level", "self.state.call_sub_level()", "set_call_sub_level"), ("registers", "collect_registers", "apply_registers"),
-                               ("temps", "metadata.temps", "RegName::Temp")):
+                               ("temps", ".temps", "RegName::Temp")):
         n += 1
         if s_pat.replace(" ", "") not in sv_src.replace(" ", ""):
             ctx.violation("C16.3/field-cover", f"{rs.file_for(isa.LIB_RS)}::CoreRuntime::save_snapshot:{what}", f"CoreRuntime::save_snapshot does not save {what}", sv.where)
